@@ -35,9 +35,10 @@ pub struct RefStore {
     pub fail_find: Option<u8>,
     pub fail_save: Option<u8>,
     pub fail_update: Option<u8>,
+    pub ok_empty_on_miss: bool, // a lookup that finds nothing answers Ok(vec![]) instead of Err(NoCredentials): both follow the trait's contract
 }
 impl RefStore {
-    pub fn new(disc: u8) -> Self { Self { items: Default::default(), disc, fail_find: None, fail_save: None, fail_update: None } }
+    pub fn new(disc: u8) -> Self { Self { items: Default::default(), disc, fail_find: None, fail_save: None, fail_update: None, ok_empty_on_miss: false } }
     pub fn snapshot(&self) -> Vec<(Vec<u8>, String, Option<u32>, bool)> {
         self.items.lock().unwrap().iter().map(|p| (p.credential_id.to_vec(), p.rp_id.clone(), p.counter, p.user_handle.is_some())).collect()
     }
@@ -51,7 +52,7 @@ impl CredentialStore for RefStore {
             .filter(|pk| pk.rp_id == rp_id)
             .filter(|pk| match ids { None => true, Some(l) => l.iter().any(|d| d.id == pk.credential_id) })
             .cloned().collect();
-        if found.is_empty() { Err(Ctap2Error::NoCredentials.into()) } else { Ok(found) }
+        if found.is_empty() && !self.ok_empty_on_miss { Err(Ctap2Error::NoCredentials.into()) } else { Ok(found) }
     }
     async fn save_credential(&mut self, cred: Passkey, _u: make_credential::PublicKeyCredentialUserEntity, _r: make_credential::PublicKeyCredentialRpEntity, _o: make_credential::Options) -> Result<(), StatusCode> {
         if let Some(b) = self.fail_save { return Err(StatusCode::from(b)); }
@@ -222,6 +223,16 @@ fn c05() -> (bool, String) {
         if is_ex != excluded { return (true, format!("exclude list {name}: excluded={is_ex}, expected {excluded}")); }
         if is_ex && store.snapshot() != before { return (true, format!("exclude list {name}: excluded but the store changed")); }
         if !is_ex { store.items.lock().unwrap().truncate(before.len()); }
+    }
+    // the same exclude lists against a store that reports a miss as Ok(empty)
+    for (name, list, excluded) in [("[unknown] (store answers Ok(empty))", Some(vec![desc(&[9; 16])]), false), ("[b1] under RP a (store answers Ok(empty))", Some(vec![desc(&b1)]), false), ("[a1] (store answers Ok(empty))", Some(vec![desc(&a1)]), true)] {
+        let st = RefStore { ok_empty_on_miss: true, ..store.clone() };
+        let before = st.snapshot();
+        let mut a = Authenticator::new(Aaguid::new_empty(), st.clone(), yes());
+        let r = block_on(a.make_credential(mc_request("a.example", true, true, true, list)));
+        let is_ex = matches!(&r, Err(e) if u8::from_ref(e) == 0x19);
+        if is_ex != excluded { return (true, format!("exclude list {name}: excluded={is_ex}, expected {excluded}")); }
+        if !is_ex { st.items.lock().unwrap().truncate(before.len()); }
     }
     (false, "allow / exclude list cases ok".into())
 }
